@@ -2257,7 +2257,7 @@ def _fh_next_take(rng, prev, change):
     if change == "longer":
         fd["n"] = n + rng.choice([1, 2, 7, n // 2 + 1, n])
     elif change == "much-longer":
-        fd["n"] = min(6000, 3 * n + rng.randint(0, 50))
+        fd["n"] = min(3000, 3 * n + rng.randint(0, 50))
     elif change == "shorter":
         fd["n"] = max(1, rng.choice([n - 1, n // 2, n // 3, 1]))
     elif change == "rate":
@@ -2289,7 +2289,7 @@ def _file_history_cases(ctx, count):
                     continue
                 prev = cur.get(p)
                 if prev is None:
-                    c = {"file": _gen_file(rng, rng.choice([7, 100, 250, 1000, 2500])), "fsr": rng.choice(FILE_RATES),
+                    c = {"file": _gen_file(rng, rng.choice([7, 100, 250, 250, 1000])), "fsr": rng.choice(FILE_RATES),
                          "te": rng.choice(EXPANSIONS)}
                     change = "first"
                 else:
@@ -2661,7 +2661,7 @@ def _stage_histories(ctx):
             ctx.tally("history:" + (st.get("reuse") or "fresh") + ("+poison" if st.get("poison") else ""))
     ctx.run_cases(OPS["load_clip_history"], hs)
     ctx.run_cases(OPS["session"], _session_cases(ctx, pool + rsr, ctx.budget(170, 1400)))
-    ctx.run_cases(OPS["file_history"], _file_history_cases(ctx, ctx.budget(60, 450)))
+    ctx.run_cases(OPS["file_history"], _file_history_cases(ctx, ctx.budget(48, 400)))
 
 
 def _timed(ctx, name, fn, *args):
